@@ -430,9 +430,18 @@ func (c *call) finishResponse() {
 		}
 	}
 	c.ex.mu.Lock()
-	c.ex.RespTrail = trailers
+	panicked := c.ex.Panicked
+	if !panicked {
+		c.ex.RespTrail = trailers
+	}
 	c.ex.mu.Unlock()
 	c.mu.Unlock()
+	if panicked {
+		// net/http aborts the response of a panicking handler: the client sees
+		// a broken stream, never a clean end.
+		c.resp.finish(io.ErrUnexpectedEOF)
+		return
+	}
 	c.resp.finish(io.EOF)
 }
 
@@ -619,7 +628,10 @@ func canonicalClone(h http.Header) http.Header {
 	out := make(http.Header, len(h))
 	for k, vs := range h {
 		ck := textproto.CanonicalMIMEHeaderKey(k)
-		out[ck] = append(out[ck], vs...)
+		for _, v := range vs {
+			// field values travel without leading/trailing optional whitespace
+			out[ck] = append(out[ck], strings.Trim(v, " \t"))
+		}
 	}
 	return out
 }
